@@ -58,6 +58,12 @@ func (df *DataFrame) Astype(columnName string, targetType string) error {
 		return fmt.Errorf("column '%s' does not exist", columnName)
 	}
 
+	switch targetType {
+	case "int", "float64", "string":
+	default:
+		return fmt.Errorf("unsupported target type '%s'", targetType)
+	}
+
 	newData := make([]any, len(col.Data))
 	for i, v := range col.Data {
 		switch targetType {
